@@ -13,7 +13,7 @@ META = {
                   "operands are arbitrary forms of the modelled language (plain, effectful, statement-producing, nested "
                   "and/or, if, not, raise, try, while), every fault oracle and store, the compiled result simulates the "
                   "reference (value or escaping exception, effect trace, user variables). C02_reference_semantics: the reference is the property's wording for "
-                  "every arity and truth assignment. The compiler model is compared with hy_compile at AST level and the "
+                  "every arity and truth assignment, and C02_reference_is_first_stop_or_last proves that wording against a definition-independent first-stop-or-last specification. The compiler model is compared with hy_compile at AST level and the "
                   "target semantics with CPython on every generated program.",
     "level_note": "Trusted: Coq kernel; PySem (Python fragment semantics, validated against CPython each run, not verified); "
                   "HySem reference semantics written from the docs; hand-written compiler model tied by AST-level "
